@@ -30,6 +30,10 @@ for id in sorted(first, key=lambda x: (x.startswith('revert'), x)):
     if not id.startswith('revert') and id not in present: continue
     prop, v, fired = first[id]
     a = after.get(id)
+    if id.startswith('revert') and a is not None:
+        # canaries: only the latest run counts (earlier logs predate the marking of reverts that no longer apply)
+        prop, v, fired = a
+        a = None
     av = '' if (a is None or (v == 'CAUGHT' and a[1] == 'CAUGHT')) else a[1]
     rows.append((id, prop, v, av, (a[2] if a and a[2] else fired)))
 missing = sorted(present - set(first))
